@@ -306,6 +306,73 @@ func buildRouter(t *testing.T, patterns []string, opts ...GlobalOption) (*Router
 	return f, accepted
 }
 
+// nodeWFViolations checks, on every node of the router's current tree, the well-formedness invariant that the
+// contracts of lookupByPath / lookupByDomain ASSUME for every node in the heap (verif_contracts_walk.go, nodeWF).
+func nodeWFViolations(f *Router) []string {
+	var out []string
+	cnt := func(key string, i int) int { return strings.Count(key[:i], "{") }
+	seen := map[*node]bool{}
+	var visit func(n *node, isRoot bool)
+	visit = func(n *node, isRoot bool) {
+		if n == nil || seen[n] {
+			return
+		}
+		seen[n] = true
+		bad := func(format string, a ...interface{}) {
+			out = append(out, fmt.Sprintf("node %q: ", n.key)+fmt.Sprintf(format, a...))
+		}
+		if len(n.childKeys) != len(n.children) {
+			bad("len(childKeys)=%d len(children)=%d", len(n.childKeys), len(n.children))
+		}
+		if n.paramChildIndex < -1 || n.paramChildIndex >= len(n.children) || n.wildcardChildIndex < -1 || n.wildcardChildIndex >= len(n.children) {
+			bad("child indexes out of range")
+		}
+		if !isRoot && len(n.params) != cnt(n.key, len(n.key)) {
+			bad("len(params)=%d, %d wildcards in key", len(n.params), cnt(n.key, len(n.key)))
+		}
+		for k, p := range n.params {
+			if p.end == -1 {
+				if k != len(n.params)-1 {
+					bad("param %d has end -1 but is not the last", k)
+				}
+			} else if !(0 < p.end && p.end <= len(n.key) && cnt(n.key, p.end) == k+1) {
+				bad("param %d end %d", k, p.end)
+			}
+		}
+		if !isRoot && len(n.children) == 0 && n.route == nil {
+			bad("no children and no route")
+		}
+		for p := 0; p < len(n.key) && !isRoot; p++ {
+			if n.key[p] == '*' {
+				if !(p+1 < len(n.key) && n.key[p+1] == '{') {
+					bad("'*' at %d not followed by '{'", p)
+					continue
+				}
+				k := cnt(n.key, p)
+				if k < len(n.params) {
+					if n.params[k].end >= 0 && n.inode == nil {
+						bad("infix catch-all without inode")
+					}
+					if n.params[k].end == -1 && n.route == nil {
+						bad("node ending in a catch-all is not a leaf")
+					}
+				}
+			}
+		}
+		for _, c := range n.children {
+			if c == nil {
+				bad("nil child")
+			}
+			visit(c, false)
+		}
+		visit(n.inode, false)
+	}
+	for _, r := range f.getRoot().root {
+		visit(r, true)
+	}
+	return out
+}
+
 // deep backtracking family: several parameters recorded before the walk has to give up a branch
 var standinDeepPool = []string{
 	"/{a}/{b}/x/y/z1", "/{a}/{b}/{c}/y/z2", "/{a}/{b}/{c}/{d}/z3", "/{a}/x/{c}/y/z4", "/s/{b}/x/{d}/z5", "/{a}/{b}/*{w}/z6", "/{a}/{b}/x/*{w}", "/s/t/{c}/{d}/{e}",
@@ -376,6 +443,11 @@ func checkSet(t *testing.T, st *standinStats, seen map[string]bool, patterns []s
 	sameSet := strings.Join(acc, " ") == strings.Join(accepted2, " ")
 	spec := newSpecRouter(accepted)
 	st.RouteSets++
+	for _, v := range append(nodeWFViolations(f), nodeWFViolations(f2)...) {
+		if len(st.Mismatches) < 40 {
+			st.Mismatches = append(st.Mismatches, fmt.Sprintf("node-wf routes=%q: %s", patterns, v))
+		}
+	}
 	paths := standinPaths
 	if strings.Count(patterns[0], "/") >= 5 {
 		paths = deepProbes(accepted)
